@@ -327,13 +327,14 @@ fn oracle_c04rt(s: &Sentence, fails: &mut Vec<(String, String)>) {
 }
 
 pub fn run_sent(ops: &str, oracle: &str, fails: &mut Vec<(String, String)>) -> String {
-    run_hist(&[], &[], ops, oracle, fails)
+    run_hist(&[], &[], &[], ops, oracle, fails)
 }
 
 /// `H cfg preds ops`: the same histories with predictors available (`pred:<k>`, `fill`, `spec:<k>`)
 pub fn run_hist<'p>(
     preds: &'p [Option<vaporetto::Predictor>],
     models: &[crate::model::AbsModel],
+    pred_flags: &[bool],
     ops: &str,
     oracle: &str,
     fails: &mut Vec<(String, String)>,
@@ -341,11 +342,15 @@ pub fn run_hist<'p>(
     let mut s: Sentence<'static, 'p> = Sentence::default();
     let mut last_pred: Option<usize> = None;
     let mut filled = false;
+    let mut cur_pred: Option<usize> = None; // the predictor the sentence currently refers to
     let mut out: Vec<String> = vec![];
     let c05 = oracle == "c05";
     let default_obs = if c05 { obs(&Sentence::default()) } else { String::new() };
     for op in ops.split(',') {
         let f: Vec<&str> = op.split(':').collect();
+        if matches!(f[0], "new" | "raw" | "tok" | "part" | "Fraw" | "Ftok" | "Fpart") {
+            cur_pred = None;
+        }
         if matches!(f[0], "new" | "raw" | "tok" | "part" | "Fraw" | "Ftok" | "Fpart" | "reset" | "sett") {
             last_pred = None;
             filled = false;
@@ -435,12 +440,15 @@ pub fn run_hist<'p>(
                 match catch(|| p.predict(&mut s)) {
                     Ok(()) => {
                         last_pred = Some(k);
+                        cur_pred = Some(k);
                         filled = false;
                         "ok".into()
                     }
                     Err(_) => "panic".into(),
                 }
             }
+            // fill_tags() after predict() with a predictor built with predict_tags = false is a documented panic
+            ["fill"] if cur_pred.map_or(false, |k| !pred_flags.get(k).copied().unwrap_or(true)) => "nofill".into(),
             ["fill"] => match catch(|| s.fill_tags()) {
                 Ok(()) => {
                     filled = true;
@@ -500,7 +508,7 @@ pub fn run_hist<'p>(
                     s.boundaries_mut()[i] = b;
                     "ok".into()
                 } else {
-                    "panic".into()
+                    "oob".into()
                 }
             }
             ["sett", i, h] => {
@@ -517,7 +525,7 @@ pub fn run_hist<'p>(
                     s.tags_mut()[i] = t;
                     "ok".into()
                 } else {
-                    "panic".into()
+                    "oob".into()
                 }
             }
             _ => return "bad-op".into(),
@@ -533,6 +541,21 @@ pub fn run_hist<'p>(
         "c06" => {
             if let (Some(k), true) = (last_pred, filled) {
                 crate::pred::oracle_c06(&s, &models[k], fails);
+            }
+        }
+        "c08" => {
+            let all: Vec<&str> = ops.split(',').collect();
+            if out.iter().any(|o| o == "panic") {
+                let i = out.iter().position(|o| o == "panic").unwrap();
+                fails.push(("C08".into(), format!("operation {} ({}) of the history panicked", i, all.get(i).copied().unwrap_or("?"))));
+            } else if let Some(i) = all.iter().rposition(|o| o.starts_with("raw:")) {
+                let tail = all[i..].join(",");
+                let mut dummy = vec![];
+                let fresh = run_hist(preds, models, pred_flags, &format!("F{tail}"), "", &mut dummy);
+                let (a, b) = (out.last().cloned().unwrap_or_default(), fresh.rsplit(',').next().unwrap_or("").to_string());
+                if a != b {
+                    fails.push(("C08".into(), format!("after the history the probe observes {a} but a fresh sentence observes {b}")));
+                }
             }
         }
         "c02" => oracle_c02(&s, fails),
